@@ -12,6 +12,8 @@ correspondence
   malformed: None state, bounds of the wrong length, empty design, bracket narrower than the tolerance
             (UnboundLocalError), maxit = 0
 oracle (on the real code, independent of the model)
+  (bounds may have FIXED entries xmin[i] == xmax[i] != 0; maxvol is the TOTAL volume including them; the analytic optimum
+  then is x_free = clip(sqrt(c_free/lambda)) with the remaining volume, x_fixed unchanged)
   every design within [xmin, xmax]; consecutive designs differ by at most move; |sum x - maxvol| within the bound that
   the bisection tolerance implies (computed through the monotone volume function at lambda* -/+ l1l2tol) whenever the
   target is reachable within the move limits; after a converged run the design is the analytic optimum
@@ -30,6 +32,8 @@ from ..common import call_impl
 
 RULE = ("run: 1-4 variable signals of 1-8 (quick) / 1-20 (thorough) entries each (arrays, python-float / 0-d / 2-D states), "
         "c_i in (0.1,5) (15% of the cases contain c_i <= 0: clipped gradients), xmin/xmax/move scalar or per-variable, "
+        "30% of the cases with n >= 2 have per-variable bound vectors with 1..2n/3 entries FIXED (xmin[i] == xmax[i] at xmax, 1, 0.5, "
+        "xmin or a random non-zero value: passive regions) mixed with free ones, mostly with a reachable TOTAL volume and tolf = 0; "
         "x0 inside the bounds, maxvol None / inside (sum xmin, sum xmax) / outside, l2init in {1e3,1e5,1e9}, "
         "l1l2tol in {1e-2,1e-4,1e-6}, tolx,tolf in {0,1e-8,1e-4,1e-2}, maxit 1-30; distinct = distinct case specs "
         "with at least two network responses")
@@ -274,6 +278,7 @@ def oracle_run(case, out):
                 return f"design {j}: |x[{i}] - previous| = {d[i]!r} exceeds the move limit {move[i]!r}"
             vb = vol_bound(case, p, c, xmin, xmax, move, maxvol)
             if vb is not None:
+                case["_volchecks"] = case.get("_volchecks", 0) + 1
                 err = abs(float(np.sum(x)) - maxvol)
                 if err > vb[0]:
                     return (f"design {j}: |sum x - maxvol| = {err!r} exceeds {vb[0]!r}, the spread of the volume over "
@@ -334,11 +339,23 @@ def gen_case(ctx, t):
     xmin = bound(0.001, 0.2, [0.0, 0.0, 0.01, 0.1, 0.001])
     xmax = bound(0.6, 1.5, [1.0, 1.0, 1.0, 0.8, 2.0])
     move = bound(0.02, 0.5, [0.2, 0.2, 0.1, 0.05, 0.5, 1.0, 0.0])
+    # passive regions: per-variable bound vectors with entries FIXED (xmin[i] == xmax[i]) at a non-zero value, mixed with free ones
+    fixed = np.zeros(n, dtype=bool)
+    if n >= 2 and rng.random() < 0.3:
+        lo, hi = bnd_full(xmin, n), bnd_full(xmax, n)
+        nfix = rng.randint(1, max(1, min(n - 1, (2 * n) // 3)))
+        for i in rng.sample(range(n), nfix):
+            v = rng.choice([float(hi[i]), float(hi[i]), 1.0, 0.5, float(lo[i]) if lo[i] > 0 else 0.01, rng.uniform(0.05, 1.5)])
+            lo[i] = hi[i] = v
+            fixed[i] = True
+        xmin, xmax = ("v", [float(v) for v in lo]), ("v", [float(v) for v in hi])
     lo, hi = bnd_full(xmin, n), bnd_full(xmax, n)
     flat = []
     for i in range(n):
         r = rng.random()
-        if r < 0.1:
+        if fixed[i]:
+            flat.append(float(lo[i]))
+        elif r < 0.1:
             flat.append(float(lo[i]) if lo[i] > 0 else float(hi[i]))
         elif r < 0.15:
             flat.append(float(hi[i]))
@@ -346,10 +363,10 @@ def gen_case(ctx, t):
             flat.append(float(lo[i] + 0.5 * (hi[i] - lo[i])))
         else:
             flat.append(float(rng.uniform(max(lo[i], 1e-3), hi[i])))
-    if rng.random() < 0.2:                                 # uniform start, the usual topology-optimisation set-up
+    if rng.random() < 0.2 and not fixed.any():             # uniform start, the usual topology-optimisation set-up
         v = rng.uniform(float(np.max(lo)) + 1e-3, float(np.min(hi)))
         flat = [v] * n
-    clipcase = rng.random() < 0.15 and float(np.min(lo)) > 0
+    clipcase = rng.random() < 0.15 and float(np.min(lo)) > 0 and not fixed.any()
     cflat = [rng.uniform(0.1, 5.0) for _ in range(n)]
     if clipcase:
         for i in range(n):
@@ -370,10 +387,17 @@ def gen_case(ctx, t):
         maxvol = slo - rng.uniform(0.0, 0.5) * max(slo, 0.1)      # below everything reachable
     else:
         maxvol = shi * rng.uniform(1.0, 1.5)                       # above everything reachable
+    if fixed.any() and rng.random() < 0.7:
+        # the usual passive-region set-up: a reachable total volume and a run that is allowed to converge
+        maxvol = None if rng.random() < 0.3 else slo + rng.uniform(0.15, 0.85) * (shi - slo)
+        tolx, tolf, maxit = 1e-4, 0.0, rng.randint(10, 40)
+    else:
+        tolx, tolf = rng.choice([1e-4, 1e-4, 0.0, 1e-8, 1e-2]), rng.choice([1e-4, 0.0, 0.0, 1e-8, 1e-2])
+        maxit = rng.randint(1, 30)
     return {
         "kinds": kinds, "x0": x0, "c": c, "net": rng.choice(["single", "single", "per-signal"]),
-        "tolx": rng.choice([1e-4, 1e-4, 0.0, 1e-8, 1e-2]), "tolf": rng.choice([1e-4, 0.0, 0.0, 1e-8, 1e-2]),
-        "maxit": rng.randint(1, 30), "xmin": xmin, "xmax": xmax, "move": move,
+        "tolx": tolx, "tolf": tolf,
+        "maxit": maxit, "xmin": xmin, "xmax": xmax, "move": move,
         "l1init": rng.choice([0, 0, 0, 0.0, 1e-3]), "l2init": rng.choice([1e5, 100000, 1e5, 1e3, 1e9]),
         "l1l2tol": rng.choice([1e-4, 1e-4, 1e-4, 1e-2, 1e-6]), "maxvol": maxvol,
     }
@@ -477,6 +501,13 @@ def run_stream(ctx, stream, cases, with_oracle):
             ctx.branch(f"{stream}.nonarray_state")
         if any(v <= 0 for cc in case["c"] for v in cc):
             ctx.branch(f"{stream}.clipped_gradient")
+        if case["xmin"][0] == "v" and case["xmax"][0] == "v" and len(case["xmin"][1]) == len(case["xmax"][1]) and \
+                any(a == b for a, b in zip(case["xmin"][1], case["xmax"][1])):
+            ctx.branch(f"{stream}.fixed_entries(xmin==xmax)")
+            if "_stats" in case:
+                ctx.branch(f"{stream}.fixed_entries.optimum_checked")
+            if case.get("_volchecks"):
+                ctx.branch(f"{stream}.fixed_entries.volume_checked")
         if "_stats" in case:
             worst = max(worst, case["_stats"]["opt_err"])
             ctx.branch(f"{stream}.optimum_checked")
